@@ -1,6 +1,6 @@
 """Shared by c07.py / c08.py: byte builders (serde_json-compatible), the compact `segs` encoding, the srvlimits
 runner and the classification of the library's fixed error objects.  Nothing here depends on the Coq model."""
-import json, re, zlib
+import json, os, re, zlib
 import vlib
 
 EPS_WS = ["server", "tower", "wsconnect"]
@@ -223,9 +223,14 @@ def small_call(i):
 
 # ---------------------------------------------------------------- running srvlimits
 
-def run_srv(cases, timeout=3000):
+def impl_bin():
+    """VERIF_SRVLIMITS_BIN overrides the implementation binary (a harness copy built against another tree)."""
+    return os.environ.get("VERIF_SRVLIMITS_BIN") or vlib.rust_bin("srvlimits")
+
+
+def run_srv(cases, timeout=3000, min_shard=8):
     lines = [json.dumps(c, separators=(",", ":")) for c in cases]
-    out = vlib.run_lines([vlib.rust_bin("srvlimits")], lines, min_shard=8, timeout=timeout)
+    out = vlib.run_lines([impl_bin()], lines, min_shard=min_shard, timeout=timeout)
     res = []
     for l in out:
         try:
@@ -240,3 +245,42 @@ def frame_bytes(x):
     if not x or not re.fullmatch(r"[0-9a-f]*", x):
         return None
     return bytes.fromhex(x)
+
+
+# ---------------------------------------------------------------- WS pipeline mode (srvlimits "mode":"pipeline")
+
+GEN_UNIT = "x" * 16
+
+
+def gen_call(i, nbytes):
+    """call of method `gen` whose result is a string of nbytes bytes (a multiple of 16): (segs, request length, expected response bytes)"""
+    count = nbytes // len(GEN_UNIT)
+    req = b'{"jsonrpc":"2.0","id":%d,"method":"gen","params":[%d,"%s"]}' % (i, count, GEN_UNIT.encode())
+    # GEN_UNIT needs no escaping: the serialised string is the text between quotes (ser_str char by char is too slow for MiBs)
+    return seg(req), len(req), response_bytes(i, b'"' + GEN_UNIT.encode() * count + b'"')
+
+
+def socket_absorb_bytes():
+    """upper bound of what a loop-back TCP connection holds between a writer and a peer that does not read: the send
+    buffer can grow to tcp_wmem[2] (auto-tuning), the receive buffer is the small SO_RCVBUF the client asked for"""
+    try:
+        with open("/proc/sys/net/ipv4/tcp_wmem") as f:
+            return int(f.read().split()[2])
+    except Exception:
+        return 4 * 1024 * 1024
+
+
+def pipeline_frame(x):
+    """entry of a pipeline-mode `replies` list -> dict(kind="frame", len, crc, head bytes, full bytes or None) or dict(kind="marker", text)"""
+    if x.startswith("L:"):
+        _, ln, crc, head = x.split(":")
+        return {"kind": "frame", "len": int(ln), "crc": int(crc, 16), "head": bytes.fromhex(head), "bytes": None}
+    b = frame_bytes(x)
+    if b is None:
+        return {"kind": "marker", "text": x}
+    return {"kind": "frame", "len": len(b), "crc": zlib.crc32(b) & 0xFFFFFFFF, "head": b[:96], "bytes": b}
+
+
+def frame_numeric_id(head):
+    m = re.match(rb'\{"jsonrpc":"2\.0","id":(\d+),"(result|error)":', head)
+    return int(m.group(1)) if m else None
